@@ -78,19 +78,21 @@ def scn_get_mask(T, case):
     if T.symbolic:
         sh = T._sh
         cls = T.under_contract(sh, ME, "EnsembleEvaluator")
+        T.under_contract(sh, ME, "EnsembleEvaluator.__init__")
         T.under_contract(sh, ME, "EnsembleEvaluator._init_samplers")
     else:
         cls = T.func(ME, "EnsembleEvaluator")
-    ev = object.__new__(cls)
-    ev._config = types.SimpleNamespace(samplers=(types.SimpleNamespace(method="a"), types.SimpleNamespace(method="b")),
-                                       gradient=types.SimpleNamespace(samplers=garr), variables=types.SimpleNamespace(mask=marr))
+    # entered through the constructor (the way every caller does), so that private re-arrangements between __init__ and
+    # _init_samplers do not matter: the generator is whatever object reaches the sampler plug-ins
+    cfg = types.SimpleNamespace(samplers=(types.SimpleNamespace(method="a"), types.SimpleNamespace(method="b")), realization_filters=(), function_estimators=(),
+                                gradient=types.SimpleNamespace(samplers=garr, seed=1), variables=types.SimpleNamespace(mask=marr))
     log = []
     pm = types.SimpleNamespace(get_plugin=lambda kind, method: _SamplerPlugin(log))
-    rng = object()
-    ev._init_samplers(rng, pm)
+    cls(cfg, None, None, pm)
+    rng = log[0][2] if log else None
     for idx, m, r in log:
         T.prove("C09.init_samplers.sampler_mask_inside_variable_mask", m is None and mask is None or (m is not None and all((mask is None or mask[i]) for i in range(N) if m[i])))
-        T.prove("C09.init_samplers.same_generator_for_every_sampler", r is rng)
+        T.prove("C09.init_samplers.same_generator_for_every_sampler", r is rng and r is not None)
 
 
 # ------------------------------------------------------------------------------------ completed variables / nested update
@@ -117,7 +119,7 @@ def _optimizer(T, mask, N, nested=None, run=None):
 
 
 def cases_completed(tier):
-    for N in (1, 2, 3):
+    for N in (1, 2, 3) + ((4,) if tier == "thorough" else ()):
         for m in [None] + list(masks(N)):
             for batch in (None, 2):
                 yield "N%d/mask=%s/batch=%s" % (N, m, batch), {"N": N, "mask": m, "batch": batch}
@@ -148,7 +150,7 @@ def scn_completed(T, case):
 
 
 def cases_nested(tier):
-    for N in (2, 3):
+    for N in (2, 3) + ((4,) if tier == "thorough" else ()):
         for m in masks(N):
             if all(m):
                 continue
@@ -198,7 +200,7 @@ def scn_nested(T, case):
 
 # ------------------------------------------------------------------------------------ gradients
 def cases_gradients(tier):
-    for N in (1, 2, 3):
+    for N in (1, 2, 3) + ((4,) if tier == "thorough" else ()):
         for m in [None] + list(masks(N)):
             for K in (0, 1):
                 yield "N%d/mask=%s/K%d" % (N, m, K), {"N": N, "mask": m, "K": K}
@@ -291,7 +293,7 @@ def scn_requests(T, case):
 
 # ------------------------------------------------------------------------------------ what SciPy is given
 def cases_scipy(tier):
-    for N in (2, 3):
+    for N in (2, 3) + ((4,) if tier == "thorough" else ()):
         for m in [None] + [mm for mm in masks(N)]:
             for method in ("slsqp", "differential_evolution"):
                 yield "N%d/mask=%s/%s" % (N, m, method), {"N": N, "mask": m, "method": method}
